@@ -380,12 +380,12 @@ func (s *S) op(name string, req *go9p.SrvReq) {
 		ent = make(chan struct{})
 		s.entered[key] = ent
 	}
-	s.mu.Unlock()
 	select {
 	case <-ent:
 	default:
-		close(ent)
+		close(ent) // under s.mu: two requests with the same key may enter at once
 	}
+	s.mu.Unlock()
 	returned := make(chan struct{})
 	defer func() {
 		s.add(Entry{Kind: "exit", Op: name, Conn: req.Conn.Id, Key: key, Tag: req.Tc.Tag})
